@@ -210,3 +210,93 @@ pub fn crashes(ctx : &Ctx, out : &mut Out)
     }
     out.extra.set("crash_points", Json::i(total_snapshots));
 }
+
+
+/// run a list of operations from a given disk state (a crash snapshot), optionally erasing the file-state table
+/// before every build; returns (verdict, workspace files) after every build, and reports C07 at every quiescent point
+fn continue_from(out : &mut Out, disk : &Disk, mode : ClockMode, clock : u64, ops : &[Op], erase_table : bool, replay : &Json, c07 : bool) -> Vec<(String, BTreeMap<String, Vec<u8>>)>
+{
+    let d = Driver{sys : MemSys::from_disk(disk.clone(), mode, clock), record_snapshots : false};
+    let mut res = vec![];
+    for op in ops
+    {
+        match op
+        {
+            Op::Build(_) | Op::Clean(_) =>
+            {
+                if erase_table && matches!(op, Op::Build(_)) { d.user(&Op::RmTable); d.tick(); }
+                let inv = d.invoke(op, Policy::Serial);
+                d.tick();
+                if c07
+                {
+                    for (p, node) in inv.after.files.iter()
+                    {
+                        if let Some(name) = p.strip_prefix(&cache_prefix())
+                        {
+                            if name != cache_name_of(&node.content)
+                            {
+                                let tbl = inv.before.files.get(&world::table_path()).and_then(|n| world::bincode_table(&n.content)).unwrap_or(vec![]);
+                                let tbl_s : Vec<String> = tbl.iter().map(|(k, st)| format!("{}=({}..,{},{})", String::from_utf8_lossy(k), crate::suites::hist::cache_name_of_ticket(&st.0), st.1, st.2)).collect();
+                                let files_s : Vec<String> = inv.before.files.iter().filter(|(p, _)| !in_ruler_dir(p) || p.starts_with(&cache_prefix())).map(|(p, n)| format!("{}=({:?},{})", p.replace(".ruler/cache/", "cache/").chars().take(14).collect::<String>(), String::from_utf8_lossy(&n.content), n.mtime)).collect();
+                                out.violation("C07:cache-entry-misnamed-after-crash-coarse-clock", format!("after the crash and {}: cache entry {} (mtime {}) holds content {:?} whose hash is {}; before that invocation: table [{}] files [{}]", op.describe(), &name[..8], node.mtime, String::from_utf8_lossy(&node.content), &cache_name_of(&node.content)[..8], tbl_s.join(" "), files_s.join(" ")), replay.clone());
+                                break;
+                            }
+                        }
+                    }
+                }
+                if let Op::Build(_) = op { res.push((inv.verdict.show(), disk_files(&inv.after))); }
+            },
+            _ => { d.user(op); d.tick(); },
+        }
+    }
+    res
+}
+
+/// C11 x C18: a kill under the COARSE clock (files written by one invocation share a modification time). The prior
+/// history exchanges and restores leaf values (hist::swap_ops), so that files with equal times and different
+/// contents travel through the cache; one of its builds is the victim; from every crash point the rest of the
+/// history is run twice — as is, and with the file-state table erased before every build — and both must give the
+/// same verdicts and workspace (the recovered state must not poison the shortcut), with the cache content-addressed.
+pub fn crashes_coarse(ctx : &Ctx, out : &mut Out)
+{
+    let mut rng = Rng::new(ctx.seed).fork(1118);
+    let n = if ctx.thorough { 400 } else { 40 };
+    let mut total = 0usize;
+    for i in 0..n
+    {
+        let mut r = rng.fork(i as u64);
+        let ops = crate::suites::hist::swap_ops(&mut r);
+        let builds : Vec<usize> = ops.iter().enumerate().filter(|(k, o)| *k >= 4 && matches!(o, Op::Build(_))).map(|(k, _)| k).collect();
+        if builds.is_empty() { continue; }
+        let k = *r.pick(&builds);
+        let (prep, rest) = ops.split_at(k);
+        let victim_op = rest[0].clone();
+        let cont : Vec<Op> = { let mut c = vec![Op::Build(None)]; c.extend(rest[1..].iter().cloned()); c };
+        let driver = Driver::new(ClockMode::Coarse, 1_000_000);
+        for op in prep { match op { Op::Build(_) | Op::Clean(_) => { driver.invoke(op, Policy::Serial); driver.tick(); }, _ => { driver.user(op); driver.tick(); } } }
+        let mut victim = driver.fork();
+        victim.record_snapshots = true;
+        let inv = victim.invoke(&victim_op, Policy::Serial);
+        let clock = victim.sys.with(|s| s.clock) + 5000;
+        let mut snaps : Vec<(Disk, String)> = inv.snapshots.clone();
+        snaps.push((inv.after.clone(), "end".to_string()));
+        out.count("coarse-victims");
+        for (j, (disk, what)) in snaps.iter().enumerate()
+        {
+            total += 1;
+            let mut replay = replay_json("crash_coarse", prep, &victim_op, j, what, 0);
+            replay.set("clock", Json::s("coarse"));
+            replay.set("case", Json::s(&world::show_history_case(true, 1_000_000, &ops[..k + 1])));
+            replay.set("then", Json::Arr(cont.iter().map(|o| Json::s(&o.describe())).collect()));
+            let nv = out.violations.len();
+            let a = continue_from(out, disk, ClockMode::Coarse, clock, &cont, false, &replay, true);
+            let b = continue_from(out, disk, ClockMode::Coarse, clock, &cont, true, &replay, false);
+            if out.violations.len() == nv && a != b
+            {
+                let idx = a.iter().zip(b.iter()).position(|(x, y)| x != y).unwrap_or(0);
+                out.violation("C11:crash-poisons-shortcut-coarse-clock", format!("killed before `{}` under the coarse clock: build #{} of the continuation gives {} with the saved table and {} with the table erased (or different files)", what, idx, a.get(idx).map(|x| x.0.clone()).unwrap_or_default(), b.get(idx).map(|x| x.0.clone()).unwrap_or_default()), replay.clone());
+            }
+        }
+    }
+    out.extra.set("crash_points_coarse", Json::i(total));
+}
